@@ -428,6 +428,10 @@ func disconnectCase(c *core.Case, k int) {
 	}
 	defer srv.Close()
 	ip := fmt.Sprintf("172.16.%d.%d", r.Intn(256), 1+r.Intn(254))
+	if !late && k%3 == 2 {
+		duringLogin(c, srv, ip, opt, optClass, target)
+		return
+	}
 	tgt, err := refclient.LoginAs(srv, ip+":4000", "prot", "", "Protected")
 	if err != nil {
 		c.Unsure("login: %v", err)
@@ -506,4 +510,62 @@ func disconnectCase(c *core.Case, k int) {
 		}
 	}
 	c.Count("disconnect_attempts", 1)
+}
+
+// duringLogin: the disconnect request arrives while the protected user's login is still being completed - the
+// connection has just been entered into the registry (a hook holds it there for 200 ms). From the moment the user can
+// be addressed by an id, the protection of its account must be in force.
+func duringLogin(c *core.Case, srv *fixture.Server, ip string, opt []byte, optClass int, target []byte) {
+	adm, err := refclient.LoginAs(srv, "10.3.0.2:1", "admin", "", "Admin")
+	if err != nil {
+		c.Unsure("login: %v", err)
+		return
+	}
+	srv.Quiesce(refclient.Watchdog)
+	registered := make(chan [2]byte, 4)
+	srv.OnEvent = func(name string, cid [2]byte, x uint32) {
+		if name == "conn.registered" {
+			registered <- cid
+			time.Sleep(200 * time.Millisecond)
+		}
+	}
+	var tgt *refclient.Client
+	var lerr error
+	done := make(chan struct{})
+	go func() {
+		defer close(done)
+		tgt, lerr = refclient.LoginAs(srv, ip+":4000", "prot", "", "Protected")
+	}()
+	var cid [2]byte
+	select {
+	case cid = <-registered:
+	case <-time.After(refclient.Watchdog):
+		c.Unsure("the target's registration was not observed")
+		return
+	}
+	fields := []rc.Field{rc.F(103, cid[:])}
+	if opt != nil {
+		fields = append(fields, rc.F(113, opt))
+	}
+	reply, ok := adm.CallDirect(110, fields...)
+	<-done
+	srv.OnEvent = nil
+	c.Describe(fmt.Sprintf("disconnect-protected/opt%d/during-login", optClass), map[string]any{"target_access": fmt.Sprintf("%x", target), "options": fmt.Sprintf("%x", opt), "reply": reply.String()})
+	c.Count("disconnect_attempts", 1)
+	c.Count("disconnect_attempts_during_the_target_login", 1)
+	if lerr != nil {
+		c.Fail("C06/disconnect/during-login/login-failed", "the protected user's login, during which a disconnect request for its id arrived, failed: %v", lerr)
+		return
+	}
+	if ok && reply.Err == 0 {
+		c.Fail("C06/disconnect/no-error", "disconnect (options %x) of a user holding cannot-be-disconnected (access %x), sent while that user's login was being completed (id %x already registered), was not refused", opt, target, cid)
+	}
+	time.Sleep(1300 * time.Millisecond)
+	srv.Quiesce(refclient.Watchdog)
+	if tgt.Conn.ServerClosed() || tgt.Conn.HandlerDone() {
+		c.Fail("C06/disconnect/closed", "a user holding cannot-be-disconnected was disconnected by a request that arrived while its login was being completed (options %x)", opt)
+	}
+	if b, _ := srv.S.BanList.IsBanned(ip); b {
+		c.Fail("C06/disconnect/banned", "the address of a user holding cannot-be-disconnected was banned by a request that arrived while its login was being completed (options %x)", opt)
+	}
 }
